@@ -1,5 +1,6 @@
 import Generated.Facts
 import Model.Submit
+import Model.SeqProgram
 /-! C09 tie: the checks of `addChainOrPreChain`, their order and status codes, how the pending
 entry is filled (issuer key hash from `chain[1]` / `chain[2]`), the endpoint/type closures, the
 handlers' status pass-through, routing and the body limit, the issuer-before-pool order of
@@ -36,6 +37,9 @@ theorem validate_opts :
 theorem window : Generated.c09_ctfe_window = expectedWindow := by decide
 
 theorem addleaf_order : Generated.c09_addleaf_order = expectedAddLeafOrder := by decide
+/-- `uploadIssuer`: the in-memory "seen" mark is set only after Fetch/Upload succeeded, under the write lock held
+    across the storage operations (what `handleIssuerFault` and `uploadIssuers` assume) -/
+theorem uploadissuer_order : Generated.skelUploadIssuer = _root_.Seq.expectedUploadIssuer := by decide
 theorem getroots : Generated.c09_getroots_flow = expectedGetRoots := by decide
 theorem rootpool : Generated.c09_rootpool_flow = expectedRootPool := by decide
 theorem setroots : Generated.c09_setroots_flow = expectedSetRoots := by decide
